@@ -575,3 +575,215 @@ End Text.
 (* C17_text_fields (S-C17b): exact round trip of a text field iff strip is the identity on it *)
 Lemma strip_refuted : exists v : str, strip v <> v /\ strip v = [120].
 Proof. exists [32; 120; 32]. split; [vm_compute; discriminate|vm_compute; reflexivity]. Qed.
+
+(* ------------------------------------------------------------ the whole document *)
+(* writer side: what GiftiImage._to_xml_element serialises, as text *)
+Record wda := mkWda {
+  w_attrs : da_attrs; w_meta : meta;
+  w_ds : str; w_xs : str; w_mtext : str;      (* DataSpace, TransformedSpace, MatrixData texts *)
+  w_text : str;                                (* Data text *)
+  w_xform : list Z; w_data : list Z }.         (* what the texts decode to (premises below) *)
+Record wimage := mkWimg {
+  wi_version : str; wi_meta : meta; wi_labels : list (Z * list (option Z) * str); wi_das : list wda }.
+
+Definition meta_events (m : meta) : list event :=
+  [Start TMetaData ANone] ++ concat (map (fun p => md_events (fst p) (snd p)) m) ++ [End TMetaData].
+Definition labels_events (l : list (Z * list (option Z) * str)) : list event :=
+  [Start TLabelTable ANone] ++ concat (map (fun p => label_events (fst (fst p)) (snd (fst p)) (snd p)) l)
+  ++ [End TLabelTable].
+Definition cs_events (d : wda) : list event :=
+  [Start TCSTM ANone; Start TDataSpace ANone; Chars (w_ds d); End TDataSpace;
+   Start TTransformedSpace ANone; Chars (w_xs d); End TTransformedSpace;
+   Start TMatrixData ANone; Chars (w_mtext d); End TMatrixData; End TCSTM].
+Definition da_events (d : wda) : list event :=
+  [Start TDataArray (ADataArray (w_attrs d))] ++ meta_events (w_meta d) ++ cs_events d
+  ++ [Start TData ANone] ++ chars_ev (w_text d) ++ [End TData; End TDataArray].
+Definition image_events (i : wimage) : list event :=
+  [Start TGifti (AGifti (Some (wi_version i)))] ++ meta_events (wi_meta i) ++ labels_events (wi_labels i)
+  ++ concat (map da_events (wi_das i)) ++ [End TGifti].
+
+(* what the reader makes of it: texts stripped, dictionaries built in order *)
+Definition norm_meta (m : meta) (g : meta) : meta :=
+  fold_left (fun acc p => dict_set acc (strip (fst p)) (strip (snd p))) m g.
+Definition norm_label (p : Z * list (option Z) * str) : label :=
+  mkLabel (fst (fst p)) (snd (fst p)) (Some (strip (snd p))).
+Definition norm_da (d : wda) : darray :=
+  mkDA (w_attrs d) (Some (norm_meta (w_meta d) []))
+       (mkCS (Some (strip (w_ds d))) (Some (strip (w_xs d))) (Some (w_xform d))) (Some (w_data d)).
+Definition norm_image (i : wimage) : image :=
+  mkImg (Some (wi_version i)) (norm_meta (wi_meta i) []) (map norm_label (wi_labels i)) (map norm_da (wi_das i)).
+Definition data_arg (t : str) : option str := match t with [] => None | _ => Some t end.
+
+Lemma upd_last_snoc (f : darray -> darray) l d : upd_last f (l ++ [d]) = Some (l ++ [f d]).
+Proof.
+  induction l as [|x l IH]; [reflexivity|]. cbn [app upd_last]. rewrite IH.
+  destruct (l ++ [d]) eqn:E; [destruct l; discriminate|reflexivity].
+Qed.
+
+Section Whole.
+  Variable b64dec : str -> option (list Z).
+  Variable zdecomp : list Z -> option (list Z).
+  Variable loadtxt : Z -> str -> option (list nat * list Z).
+  Notation run := (run b64dec zdecomp loadtxt).
+  Notation parse := (parse b64dec zdecomp loadtxt).
+
+  Lemma run_app a b : forall s, run s (a ++ b) = bind (run s a) (fun s' => run s' b).
+  Proof.
+    induction a as [|e a IH]; intros s; [reflexivity|]. cbn [app Model.run].
+    destruct (step b64dec zdecomp loadtxt s e); cbn [bind]; [apply IH|reflexivity].
+  Qed.
+
+  (* a run of <MD> elements, global metadata open *)
+  Lemma mds_run_global m : forall im ve me la da de g lt lb co,
+    run (mkSt im ve me la da de None (Some g) None lt lb co None None)
+        (concat (map (fun p => md_events (fst p) (snd p)) m))
+    = Ok (mkSt im ve me la da de None (Some (norm_meta m g)) None lt lb co None None).
+  Proof.
+    induction m as [|[n v] m IH]; intros; [reflexivity|]. cbn [map concat fst snd norm_meta fold_left].
+    rewrite run_app, (md_roundtrip b64dec zdecomp loadtxt _ g n v) by reflexivity. cbn [bind]. apply IH.
+  Qed.
+
+  Lemma mds_run_da m : forall im ve me la da de d lt lb co,
+    run (mkSt im ve me la da de None None (Some d) lt lb co None None)
+        (concat (map (fun p => md_events (fst p) (snd p)) m))
+    = Ok (mkSt im ve me la da de None None (Some (norm_meta m d)) lt lb co None None).
+  Proof.
+    induction m as [|[n v] m IH]; intros; [reflexivity|]. cbn [map concat fst snd norm_meta fold_left].
+    rewrite run_app, (md_roundtrip_da b64dec zdecomp loadtxt _ d n v) by reflexivity. cbn [bind]. apply IH.
+  Qed.
+
+  Lemma labels_run l : forall im ve me la da de mg md acc co,
+    run (mkSt im ve me la da de None mg md (Some acc) None co None None)
+        (concat (map (fun p => label_events (fst (fst p)) (snd (fst p)) (snd p)) l))
+    = Ok (mkSt im ve me la da de None mg md (Some (acc ++ map norm_label l)) None co None None).
+  Proof.
+    induction l as [|[[k c] t] l IH]; intros; [cbn; now rewrite app_nil_r|].
+    cbn [map concat fst snd]. rewrite run_app, (label_roundtrip b64dec zdecomp loadtxt _ acc k c t) by reflexivity.
+    cbn [bind].
+    replace (acc ++ norm_label (k, c, t) :: map norm_label l) with ((acc ++ [norm_label (k, c, t)]) ++ map norm_label l)
+      by now rewrite <- app_assoc.
+    apply IH.
+  Qed.
+
+  Ltac crunch Hl Hd :=
+    repeat (lazy -[strip app concat upd_last rev Model.read_data_block norm_meta];
+            cbn [app concat];
+            rewrite ?app_nil_r, ?upd_last_snoc, ?rev_unit, ?Hl, ?Hd).
+
+  (* one <DataArray> element, the image already open *)
+  Lemma da_run d ve me la D shp :
+    loadtxt 64 (w_mtext d) = Some (shp, w_xform d) ->
+    read_data_block b64dec zdecomp loadtxt (w_attrs d) (data_arg (w_text d)) = Ok (w_data d) ->
+    run (mkSt true ve me la D 1 None None None None None false None None) (da_events d)
+    = Ok (mkSt true ve me la (D ++ [norm_da d]) 1 None None None None None false None None).
+  Proof.
+    intros Hl Hd. destruct d as [a m ds xs mt tx xf dt]. cbn [w_attrs w_meta w_ds w_xs w_mtext w_text w_xform w_data] in *.
+    unfold da_events, meta_events, cs_events, norm_da.
+    cbn [w_attrs w_meta w_ds w_xs w_mtext w_text w_xform w_data].
+    cbn [app]. rewrite <- app_assoc.
+    match goal with |- Model.run _ _ _ ?s (?e1 :: ?e2 :: ?r) = ?rhs =>
+      change (Model.run b64dec zdecomp loadtxt s ([e1; e2] ++ r) = rhs) end.
+    rewrite run_app.
+    assert (E1 : run (mkSt true ve me la D 1 None None None None None false None None)
+                     [Start TDataArray (ADataArray a); Start TMetaData ANone]
+                 = Ok (mkSt true ve me la (D ++ [da_new a]) 3 None None (Some []) None None false None None))
+      by reflexivity.
+    rewrite E1. cbn [bind]. rewrite run_app, mds_run_da. cbn [bind].
+    destruct tx as [|t0 tx]; cbn [data_arg chars_ev app] in *; unfold str in *; crunch Hl Hd; reflexivity.
+  Qed.
+
+  Definition da_ok (d : wda) : Prop :=
+    (exists shp, loadtxt 64 (w_mtext d) = Some (shp, w_xform d)) /\
+    read_data_block b64dec zdecomp loadtxt (w_attrs d) (data_arg (w_text d)) = Ok (w_data d).
+
+  Lemma das_run das : forall ve me la D, Forall da_ok das ->
+    run (mkSt true ve me la D 1 None None None None None false None None) (concat (map da_events das))
+    = Ok (mkSt true ve me la (D ++ map norm_da das) 1 None None None None None false None None).
+  Proof.
+    induction das as [|d das IH]; intros ve me la D F; [cbn; now rewrite app_nil_r|].
+    inversion F as [|? ? [[shp Hl] Hd] F']; subst. cbn [map concat].
+    rewrite run_app, (da_run d ve me la D shp Hl Hd). cbn [bind]. rewrite (IH ve me la _ F').
+    now rewrite <- app_assoc.
+  Qed.
+
+  Lemma meta_run_global m ve me la da :
+    run (mkSt true ve me la da 1 None None None None None false None None) (meta_events m)
+    = Ok (mkSt true ve (norm_meta m []) la da 1 None None None None None false None None).
+  Proof.
+    unfold meta_events. rewrite run_app.
+    assert (E1 : run (mkSt true ve me la da 1 None None None None None false None None) [Start TMetaData ANone]
+                 = Ok (mkSt true ve me la da 2 None (Some []) None None None false None None)) by reflexivity.
+    rewrite E1. cbn [bind]. rewrite run_app, mds_run_global. reflexivity.
+  Qed.
+
+  Lemma labels_run_table l ve me la da :
+    run (mkSt true ve me la da 1 None None None None None false None None) (labels_events l)
+    = Ok (mkSt true ve me (map norm_label l) da 1 None None None None None false None None).
+  Proof.
+    unfold labels_events. rewrite run_app.
+    assert (E1 : run (mkSt true ve me la da 1 None None None None None false None None) [Start TLabelTable ANone]
+                 = Ok (mkSt true ve me la da 2 None None None (Some []) None false None None)) by reflexivity.
+    rewrite E1. cbn [bind]. rewrite run_app, labels_run. reflexivity.
+  Qed.
+
+  (* C17_whole_image: the document GiftiImage.to_xml describes parses to the normalised image *)
+  Lemma whole_image (i : wimage) : Forall da_ok (wi_das i) ->
+    parse (image_events i) = Ok (norm_image i).
+  Proof.
+    intros F. unfold Model.parse, image_events. rewrite run_app.
+    assert (E1 : run st0 [Start TGifti (AGifti (Some (wi_version i)))]
+                 = Ok (mkSt true (Some (wi_version i)) [] [] [] 1 None None None None None false None None)) by reflexivity.
+    rewrite E1. cbn [bind]. rewrite run_app, meta_run_global. cbn [bind].
+    rewrite run_app, labels_run_table. cbn [bind]. rewrite run_app, (das_run _ _ _ _ _ F). cbn [bind app].
+    reflexivity.
+  Qed.
+
+  Lemma whole_image_any_chunking (i : wimage) evs : Forall da_ok (wi_das i) ->
+    merge evs = merge (image_events i) -> parse evs = Ok (norm_image i).
+  Proof.
+    intros F M. rewrite (chunking_invariant b64dec zdecomp loadtxt evs (image_events i) M). now apply whole_image.
+  Qed.
+End Whole.
+
+Section WholeWritten.
+  Variable b64enc : list Z -> str.
+  Variable b64dec : str -> option (list Z).
+  Variable zcomp : list Z -> list Z.
+  Variable zdecomp : list Z -> option (list Z).
+  Variable loadtxt : Z -> str -> option (list nat * list Z).
+  Hypothesis b64_inv : forall x, b64dec (b64enc x) = Some x.
+  Hypothesis zlib_inv : forall x, zdecomp (zcomp x) = Some x.
+
+  (* a data array as _to_xml_element writes it with a Base64 encoding: its Data text is
+     data_tag_text of its elements, its attributes say so, and its MatrixData text is what
+     np.loadtxt reads back as w_xform *)
+  Definition written_da (d : wda) : Prop :=
+    exists (be gz cm : bool) (w : nat) (dimsn : list nat),
+      a_encoding (w_attrs d) = (if gz then enc_b64gz else enc_b64bin) /\
+      a_endian (w_attrs d) = (if be then end_big else end_little) /\
+      assoc (a_datatype (w_attrs d)) dtype_table = Some (Z.of_nat w) /\ (0 < w)%nat /\
+      a_ind_ord (w_attrs d) = (if cm then ord_f else ord_c) /\
+      a_dims (w_attrs d) = map Z.of_nat dimsn /\
+      length (w_data d) = nprod dimsn /\
+      Forall (fun z => 0 <= z < pow256 w) (w_data d) /\
+      w_text d = data_tag_text b64enc zcomp be gz w cm dimsn (w_data d) /\ w_text d <> [] /\
+      exists shp, loadtxt 64 (w_mtext d) = Some (shp, w_xform d).
+
+  Lemma written_da_ok d : written_da d -> da_ok b64dec zdecomp loadtxt d.
+  Proof.
+    intros [be [gz [cm [w [dimsn [H1 [H2 [H3 [H4 [H5 [H6 [H7 [H8 [H9 [H10 H11]]]]]]]]]]]]]]].
+    split; [exact H11|].
+    assert (E : data_arg (w_text d) = Some (w_text d)) by (destruct (w_text d); [contradiction|reflexivity]).
+    rewrite E, H9.
+    now apply (block_roundtrip b64enc b64dec zcomp zdecomp loadtxt b64_inv zlib_inv be gz cm (w_attrs d) w dimsn).
+  Qed.
+
+  (* C17_whole_image_roundtrip *)
+  Lemma whole_image_roundtrip (i : wimage) evs :
+    Forall written_da (wi_das i) -> merge evs = merge (image_events i) ->
+    parse b64dec zdecomp loadtxt evs = Ok (norm_image i).
+  Proof.
+    intros F M. apply whole_image_any_chunking; [|assumption].
+    rewrite Forall_forall in *. intros d Hd. now apply written_da_ok, F.
+  Qed.
+End WholeWritten.
